@@ -22,6 +22,16 @@ CLAIMED = {
          "Error discipline, bounded indexing and worker/producer shape decided on every path of the restore call graph — exactly the fault space (any byte of any file) a test cannot enumerate and a path rule does not need to.", "DESIGN.md §2 C11"),
  "C12": ("static analysis: error-discipline dataflow over the backup call graph incl. loop-carried overwrite detection, named-result overwrite rule for deferred closures, guard-dominance of manifest writes on the success of what they describe, handshake error propagation",
          "The structural conditions without which StoreToDisk reports success for a partial backup, decided on every path; what a crash image contains is not decided.", "DESIGN.md §2 C12"),
+ "C03": ("static analysis: guard-dominance (winner-only side effects of DeleteNode), atomic-write discipline over all fields accessed through sync/atomic, CAS-outcome-consumed rule with recognised release/no-op idioms",
+         "Linearizability is NOT decided; these are local necessary conditions whose violation yields a two-writer counter-example.", "DESIGN.md §2 C03"),
+ "C05": ("static analysis: must-precede ordering of delta logging vs. unlink and of the init/terminate handshakes (incl. defer LIFO order), decision table of the delta predicate, comparator role table for the restore insert, sibling codec agreement, shard-boundary table, restored-count source",
+         "Round-trip equality is NOT decided; decided are the orderings, roles and writer/reader agreements without which a successful backup cannot restore exactly.", "DESIGN.md §2 C05"),
+ "C06": ("static analysis: who-may-write table for garbage-list links and ends, per-iteration must-execute effects of the stitch loop, guard-dominance on the retire/collect protocol, loop-shape rule for the collection worker",
+         "Necessary structural conditions of precise/complete collection on all paths; counts/bytes equality is not decided.", "DESIGN.md §2 C06"),
+ "C10": ("static analysis: comparator-origin rule and sign decision table for the shard end test, shard start/end pivot indices, error-collection dataflow, worker/producer channel shape, iterator reference pairing",
+         "Boundary agreement, error collection and termination shape decided on all paths of Visitor and its workers.", "DESIGN.md §2 C10"),
+ "C19": ("static analysis: sibling codec agreement (byte-order object, widths, slice bounds, CRC operands extracted from writer and reader SSA and compared), defer-order rule for checksum sampling vs. Close, structural matching of the KV helpers",
+         "Writer/reader mirror-image conditions decided structurally, including the never-tested v0 branch and KV helpers.", "DESIGN.md §2 C19"),
  "C01": ("static analysis: finite-domain decision-table extraction of the visibility predicates (SSA interpreter over epoch orderings), guard-dominance on the collector hand-off, freshness/who-may-write analysis of item headers and payloads, must-precede ordering in NewSnapshot",
          "Necessary structural conditions of snapshot isolation decided on every path and call site of the resolved program (SSA + must-facts + VTA call graph). Not a proof of isolation over all schedules.", "DESIGN.md §2 C01"),
 }
